@@ -11,4 +11,19 @@ def editor(name, roots, cap=10, bufn=4, props=('C07', 'C19', 'C02'), tier='quick
                     note='WF preserved, validate() accepts, whole view updated as specified'))
 
 
-editor('update_base_hostname', ['agg_update_base_hostname'])
+FRAG = [('FRAGMENT_PERCENT_ENCODE', 'const unsigned char[32]')]
+for name in ['update_base_hostname', 'update_base_username', 'update_base_password', 'append_base_username', 'update_base_port', 'clear_port',
+             'update_base_pathname', 'append_base_pathname', 'update_base_search', 'update_base_search_set', 'update_unencoded_base_hash',
+             'clear_search', 'clear_hash', 'clear_pathname', 'clear_hostname', 'clear_password', 'add_authority_slashes_if_needed',
+             'set_scheme', 'set_scheme_from_view_with_colon', 'set_protocol_as_file']:
+    editor(name, ['agg_' + name], extra_globals=FRAG if name == 'update_unencoded_base_hash' else ())
+    editor(name, ['agg_' + name], cap=14, bufn=5, tier='thorough', timeout=3600, extra_globals=FRAG if name == 'update_unencoded_base_hash' else ())
+
+GETTERS = ['agg_get_protocol', 'agg_get_username', 'agg_get_password', 'agg_get_host', 'agg_get_hostname', 'agg_get_port', 'agg_get_pathname',
+           'agg_get_search', 'agg_get_hash', 'agg_get_href', 'agg_get_href_size', 'agg_has_search', 'agg_has_hash', 'agg_has_port', 'agg_has_password',
+           'agg_has_hostname', 'agg_has_authority', 'agg_has_non_empty_username', 'agg_has_non_empty_password', 'agg_has_credentials',
+           'agg_has_empty_hostname', 'agg_has_dash_dot', 'agg_validate', 'agg_get_pathname_length', 'agg_is_at_path']
+for cap, tier in ((10, 'quick'), (16, 'thorough')):
+    OBLS.append(Obl('C07.getters.slices/c%d' % cap, ['C07', 'C04', 'C02'], 'B(%d)' % cap, 'c07/getters.c', roots=GETTERS, unwind=cap + 9,
+                    defines=['STR_CAP=%d' % cap], includes=INC, globals=OM, solver='cadical', timeout=3600, tier=tier, bound='href <= %d bytes' % cap,
+                    note='getters == slices delimited by the offsets; predicates == view; re-assembly == href; validate() accepts WF'))
